@@ -39,6 +39,8 @@ def main() -> int:
         return 0 if ok else 1
 
     st = core.lean_prepare(mod.LEAN_MODULE, mod.THEOREMS)
+    if args.tier == "thorough" and st.proofs_ok:
+        core.run_leanchecker(st, mod.LEAN_MODULE)
     ctx = {"tier": args.tier, "seed": seed, "rng": core.Rng(seed), "build": st, "escalate": False}
     # a changed generated file / broken build means the source changed exactly there:
     # escalate the correspondence run for this invocation
